@@ -219,6 +219,17 @@ class Built:
                 if len(rows2) != len(want2) or any(r is not m for r, m in zip(rows2, want2)):
                     raise ModeLeak('a nested evaluate() inside a block opened by a predicate body returned %r, expected %d rows'
                                    % ([type(r).__name__ for r in rows2], len(want2)))
+                # ... and a query BUILT by the predicate body itself (inside a block it opens, with a Predicate subclass
+                # as its condition) is a query of its own: the expression contexts that are open around the outer
+                # evaluate() - `with symbolic_mode(q):`, `with rule_mode(q):` - are not its context
+                with symbolic_mode():
+                    pz3 = let(cls0, list(members), name='probe3')
+                    cond3 = big(pz3) if blocks[0] is symbolic_mode else big(o=pz3)     # positionally / by keyword in turn
+                    q3 = an(entity(pz3, cond3))
+                rows3 = list(q3.evaluate())
+                if len(rows3) != len(want2) or any(r is not m for r, m in zip(rows3, want2)):
+                    raise ModeLeak('a query built and evaluated by a predicate body returned %r, expected %d rows'
+                                   % ([type(r).__name__ for r in rows3], len(want2)))
             finally:
                 busy.pop()
         self.counter.probe = probe
